@@ -209,6 +209,20 @@ func c08Run(dir string, tier string, cases map[int]c08Case, env *c07Env, r *Resu
 		cc.Text = cc.render()
 		msg, key, out, _ := env.judge(cc)
 		if key == "not-accepted" || msg != "" || out == nil {
+			unknown := key == "not-accepted"
+			if !unknown {
+				for _, a := range env.attribute(cc, msg, key) {
+					if !strings.Contains(a[0], "trigger=") {
+						unknown = true
+					}
+				}
+			}
+			if unknown {
+				// not one of the description classes the generator is known not to handle: the stubs of an ordinary
+				// description cannot carry the round trip (wrong name reported, does not compile, ...)
+				r.violation("symptom=stubs-unusable "+symptomOf(key)+" features="+strings.Join(c.Features, ","), "the stubs generated for this description cannot be used for the round trip: "+msg, c)
+				continue
+			}
 			// outside C08's domain: C07 reports what is wrong with this description
 			r.outcome("skipped: the description does not pass C07 (" + symptomOf(key) + ")")
 			r.Extra["skipped_not_c07_clean"]++
